@@ -78,15 +78,17 @@ func NewSolver(workDir string, seed int) (*Solver, error) {
 	return s, nil
 }
 
-var liveSolver = "z3"
+var liveSolver = "z3-new"
 
 func (s *Solver) start() error {
 	s.kind = liveSolver
 	if v := os.Getenv("VP_LIVE"); v != "" {
 		s.kind = v
 	}
-	cmd := exec.Command("z3", "-in")
-	if s.kind == "cvc5" {
+	cmd := exec.Command("z3-new", "-in")
+	if s.kind == "z3" {
+		cmd = exec.Command("z3", "-in")
+	} else if s.kind == "cvc5" {
 		cmd = exec.Command("cvc5", "--incremental", "--lang", "smt2", "--produce-models", "--tlimit-per=20000")
 	} else if s.kind == "z3-new" {
 		cmd = exec.Command("z3-new", "-in")
@@ -600,8 +602,8 @@ type backend struct {
 }
 
 var backends = []backend{
-	{"z3-oneshot", func(f string, sec int) []string { return []string{"z3", fmt.Sprintf("-T:%d", sec), f} }, ""},
-	{"z3-new", func(f string, sec int) []string { return []string{"z3-new", fmt.Sprintf("-T:%d", sec), f} }, ""},
+	{"z3-oneshot", func(f string, sec int) []string { return []string{"z3-new", fmt.Sprintf("-T:%d", sec), f} }, ""},
+	{"z3-4.8.12", func(f string, sec int) []string { return []string{"z3", fmt.Sprintf("-T:%d", sec), f} }, ""},
 	{"cvc5", func(f string, sec int) []string {
 		return []string{"cvc5", "--produce-models", fmt.Sprintf("--tlimit=%d", sec*1000), f}
 	}, "(set-logic ALL)\n"},
@@ -689,12 +691,16 @@ func (s *Solver) Escalate(pc []*Term, extra *Term, sec int, wantModel bool, only
 			o := escOut{name: b.name, sec: time.Since(t).Seconds()}
 			txt := string(out)
 			lines := strings.SplitN(strings.TrimSpace(txt), "\n", 2)
-			if strings.Contains(txt, "(error") {
+			first := strings.TrimSpace(lines[0])
+			// an error after "unsat" is the (get-value) that has no model to
+			// print; any other error line makes the answer unusable
+			if strings.Contains(txt, "(error") && !(first == "unsat" && strings.Count(txt, "(error") == 1 && strings.Contains(txt, "model is not available")) &&
+				!(first == "unsat" && strings.Contains(txt, "cannot get value unless")) {
 				o.err = firstLineWith(txt, "(error")
 				ch <- o
 				return
 			}
-			switch strings.TrimSpace(lines[0]) {
+			switch first {
 			case "sat":
 				o.res = Sat
 				if wantModel && len(lines) > 1 {
